@@ -4,7 +4,7 @@ use crate::util::*;
 use chrono::{Datelike, FixedOffset, Month, NaiveDate, NaiveTime, Timelike, Weekday};
 use core::fmt::Write;
 
-// @ob tier=quick timeout=3000 mem=14
+// @ob tier=thorough timeout=3000 mem=14
 // @desc NaiveDate with year 0..=9999: the Display/Debug form is exactly YYYY-MM-DD (zero padded, no sign) and str::parse::<NaiveDate>() of it returns the original date
 // @bounds all dates with year in 0..=9999; buffer of 10 bytes (unwind 12 covers the scanners' digit loops)
 // @funcs impl Debug/Display for NaiveDate, write_hundreds, impl FromStr for NaiveDate, format::parse (Numeric Year/Month/Day, Literal, Space), scan::number, Parsed::{set_year, set_month, set_day, to_naive_date}
@@ -28,7 +28,7 @@ fn c09_date_y4() {
     kani::cover!(y == 9999 && m == 12 && dd == 31);
 }
 
-// @ob tier=quick timeout=1800 mem=12
+// @ob tier=thorough timeout=1800 mem=12
 // @desc whole-minute FixedOffset: Display is +HH:MM / -HH:MM and parses back to the same offset; Weekday Display ("Mon".."Sun") and Month names parse back to the same value
 // @bounds all offsets that are whole minutes in (-24h, 24h); all 7 weekdays; all 12 months; buffers <= 9 bytes (unwind 12)
 // @funcs impl Display for FixedOffset / FromStr for FixedOffset, scan::timezone_offset; Display/FromStr for Weekday; Month::name / FromStr for Month; scan::short_or_long_weekday, short_or_long_month0
